@@ -36,7 +36,16 @@ def sh(cmd, cwd=None, env=None, timeout=3600):
         return 124, (ex.stdout or "") + "\nTIMEOUT"
 
 
+import threading
+_GIT = threading.Lock()      # concurrent `git worktree add/remove` on one repository race with each other
+
+
 def worktree(name):
+    with _GIT:
+        return _worktree(name)
+
+
+def _worktree(name):
     wt = os.path.join(SCRATCH, name)
     if os.path.exists(wt):
         sh(["git", "-C", "/repo", "worktree", "remove", "--force", wt])
@@ -48,8 +57,9 @@ def worktree(name):
 
 
 def drop(wt):
-    sh(["git", "-C", "/repo", "worktree", "remove", "--force", wt])
-    shutil.rmtree(wt, ignore_errors=True)
+    with _GIT:
+        sh(["git", "-C", "/repo", "worktree", "remove", "--force", wt])
+        shutil.rmtree(wt, ignore_errors=True)
 
 
 def prop_of(name):
@@ -108,7 +118,7 @@ def check(name, tier, props=None, seed=0):
                 if m and os.path.exists(m.group(1)):
                     try:
                         doc = json.load(open(m.group(1)))
-                        keys.append(doc.get("key") or doc.get("broken") or "?")
+                        keys.append((doc.get("key") or doc.get("broken") or "?") + " :: " + str(doc.get("message", ""))[:160])
                     except Exception:
                         pass
             out[prop] = {"exit": rc, "violations": len(viol), "with_failing_input": sum(1 for l in viol if "no-failing-input-found" not in l),
